@@ -9,7 +9,7 @@ from harness import remap_engine as R
 # (class label, mode, MaxEdits, NRandom, MaxPerturb, cap per texel size or None)
 PLANS = {
     "quick": {
-        "C01": [("valid", "valid", 2, 2, 0, 5000), ("perturbed", "perturb", 1, 2, 1, 9000)],
+        "C01": [("valid", "valid", 2, 2, 0, 9000), ("perturbed", "perturb", 1, 2, 1, 7000)],
         "C02": [("valid", "valid", 2, 3, 0, 12000)],
         "C07": [("valid", "valid", 2, 3, 0, 12000), ("perturbed", "perturb", 1, 1, 1, 3000)],
         "C08": [("null", "null", 0, 400, 0, None)],
